@@ -876,9 +876,15 @@ def do_pdf_grid(i):
             hl = call(hemisphere=hemi, mrd=True, log=True)
             if not np.allclose(np.ma.getdata(hl), np.log(np.ma.getdata(h1) + 1), rtol=1e-9, atol=1e-12):
                 fail("pdf:grid:log", "pole_density_function(log=True) is not log(density + 1)", rep)
-    hc = call(hemisphere=(hemi.upper() if i % 4 < 2 else hemi.capitalize()), mrd=False)
-    if not np.array_equal(np.ma.getdata(hc), d0):
-        fail("pdf:grid:hemisphere-case", f"hemisphere={hemi.upper()!r} gives another histogram than {hemi!r}", rep)
+    hname = hemi.upper() if i % 4 < 2 else hemi.capitalize()
+    try:
+        hc = np.ma.getdata(call(hemisphere=hname, mrd=False))
+    except (KeyError, ValueError) as e:
+        hc = None
+        fail("pdf:grid:hemisphere-case", f"hemisphere={hname!r} raises {type(e).__name__} (the name is documented as "
+             f"case-insensitive: hemisphere.lower())", rep)
+    if hc is not None and not np.array_equal(hc, d0):
+        fail("pdf:grid:hemisphere-case", f"hemisphere={hname!r} gives another histogram than {hemi!r}", rep)
     if wk == "constant":
         hn = pole_density_function(Vector3d(arr.copy()), resolution=res, sigma=sigma, hemisphere=hemi, mrd=False)[0]
         if not np.allclose(np.ma.getdata(hn) * 2.5, d0, rtol=1e-9, atol=1e-12 * scale):
